@@ -66,19 +66,35 @@ pub fn bytes_to_words(bytes: &[u8]) -> &[u64] {
 ///
 /// Panics if `bytes.len()` is not a multiple of 8.
 pub fn bytes_to_words_vec(bytes: &[u8]) -> Vec<u64> {
-    bytes_to_words(bytes).to_vec()
+    assert!(
+        bytes.len() % 8 == 0,
+        "byte slice length must be a multiple of 8, got {}",
+        bytes.len()
+    );
+    // Decode word by word instead of reinterpreting the slice: the result is
+    // owned anyway, and a `&[u8]` (a sub-slice of a file buffer, say) need not
+    // start on an 8-byte boundary, which `cast_slice` requires.
+    bytes
+        .chunks_exact(8)
+        .map(|c| u64::from_ne_bytes([c[0], c[1], c[2], c[3], c[4], c[5], c[6], c[7]]))
+        .collect()
 }
 
 /// Try to read u64 words from raw bytes.
 ///
-/// Returns `None` if `bytes.len()` is not a multiple of 8.
+/// Returns `None` if `bytes.len()` is not a multiple of 8, or if the slice is
+/// not 8-byte aligned (a borrowed `&[u64]` cannot be formed then; use
+/// [`bytes_to_words_vec`], which accepts any alignment).
 #[inline]
 pub fn try_bytes_to_words(bytes: &[u8]) -> Option<&[u64]> {
     if bytes.is_empty() {
         return Some(&[]);
     }
     if bytes.len() % 8 == 0 {
-        Some(cast_slice(bytes))
+        // `try_cast_slice` also fails (instead of panicking) when the slice does
+        // not start on an 8-byte boundary; a borrowed `&[u64]` cannot be formed
+        // then — use `bytes_to_words_vec` for such input.
+        bytemuck::try_cast_slice(bytes).ok()
     } else {
         None
     }
